@@ -60,6 +60,8 @@ def gen_text(rng, exotic, max_lines=5, max_line=4):
     """texts by lines: empty text, empty lines, no final newline, CR LF ends, exotic boundaries"""
     if rng.chance(0.06):
         return ''
+    if rng.chance(0.07):  # nothing but new-lines / blank lines / spaces
+        return rng.choice(['\n', '\n\n', '\n\n\n', ' ', ' \n', '\n ', ' \n\n', '  \n \n', '\n \n\n'])
     n = rng.randint(1, max_lines)
     out = []
     for i in range(n):
@@ -80,7 +82,11 @@ def gen_text(rng, exotic, max_lines=5, max_line=4):
         else:
             term = '\n'
         out.append(line + term)
-    return ''.join(out)
+    t = ''.join(out)
+    if rng.chance(0.15):  # blank lines / spaces at the end or at the start
+        pad = rng.choice(['\n', '\n\n', ' \n', ' ', '\n '])
+        t = t + pad if rng.chance(0.7) else pad + t
+    return t
 
 
 PREDS = ['le', 'ge', 'ne', 'has', 'true']
@@ -105,10 +111,15 @@ REPLS = {'nl': ("'\\n'", "''", '\n', ''),          # removes every new-line
          'abb': ('a', 'bb', 'a', 'bb')}               # neither
 
 
+STRIPS = {'both': ('strip', 'StripBoth'), 'space': ('strip -trailing-space', 'StripTrailingSpace'),
+          'nl': ('strip -trailing-new-lines', 'StripTrailingNewLines')}
+
+
 def gen_atom(rng):
     return rng.weighted([(('id',), 3), (('upper',), 2), (('filter', gen_pred(rng)), 5),
                          (('run', rng.choice(sorted(RUNS))), 2),
-                         (('replace', rng.choice(sorted(REPLS)), rng.chance(0.25)), 4)])
+                         (('replace', rng.choice(sorted(REPLS)), rng.chance(0.25)), 4),
+                         (('strip', rng.choice(sorted(STRIPS))), 4)])
 
 
 def gen_trans(rng):
@@ -253,6 +264,8 @@ def atom_src(a):
         return 'IDT' if len(a) > 1 and a[1] else 'identity'  # IDT: a text-transformer symbol defined as identity
     if a[0] == 'upper':
         return 'char-case -to-upper'
+    if a[0] == 'strip':
+        return STRIPS[a[1]][0]
     if a[0] == 'replace':
         return 'replace %s%s %s' % ('-preserve-new-lines ' if a[2] else '', REPLS[a[1]][0], REPLS[a[1]][1])
     if a[0] == 'run':
@@ -265,6 +278,8 @@ def atom_coq(a):
         return 'TId'
     if a[0] == 'upper':
         return 'TUpper'
+    if a[0] == 'strip':
+        return '(TStrip %s)' % STRIPS[a[1]][1]
     if a[0] == 'replace':
         sub = '(subst %s %s)' % (ctext(REPLS[a[1]][2]), ctext(REPLS[a[1]][3]))
         return '(TReplace %s)' % ('(sub_preserving_nl %s)' % sub if a[2] else sub)
